@@ -13,4 +13,4 @@ CONSTANTS
   Replays <- AllReplays
 INIT Init
 NEXT Next
-INVARIANTS TypeOK MonotoneLast CacheIsLastAccepted KnownIsPresented ReplaySourcedLast EmitHist
+INVARIANTS TypeOK MonotoneLast CacheIsLastAccepted KnownIsPresented ReplaySourcedLast CounterFloorSurvivesChurnLast EmitHist
